@@ -142,6 +142,19 @@ def run(ctx):
             cases.append(("field-pair", node, kfl.render(node), kfl.json_of({"a": x, "b": y}), None, {}))
         node = ('Q', [pa, pb], [rng.choice(['==', '!='])])
         cases.append(("field-pair", node, kfl.render(node), kfl.json_of({"a": [x, 5], "b": y}), None, {}))
+    # both operands arrays (array-valued fields and wildcard matches), every operator, elements among them the strings
+    # that parse as NaN and the infinities (an ordering is neither true nor refuted for NaN)
+    av = [0, 1, 2, 3, 7.5, -1, 2 ** 53, 2 ** 53 + 1, "NaN", "nan", "inf", "-inf", "+Inf", "x", "7", None, True]
+    wa, wb = ('path', [('k', 'a'), ('w',)]), ('path', [('k', 'b'), ('w',)])
+    for _ in range(120 if quick else 3000):
+        A = [rng.choice(av) for _ in range(rng.randint(0, 3))]
+        B = [rng.choice(av) for _ in range(rng.randint(0, 3))]
+        if rng.random() < 0.5:
+            A[rng.randrange(len(A)) if A else 0:0] = [rng.choice(["NaN", "nan", "inf"])]
+        for op in ('==', '!=', '<', '<=', '>', '>='):
+            for l, r_ in ((pa, pb), (wa, wb)):
+                node = ('Q' if op in ('==', '!=') else 'C', [l, r_], [op])
+                cases.append(("array-pair", node, kfl.render(node), kfl.json_of({"a": A, "b": B}), None, {}))
     nrand = 1500 if quick else 20000
     for _ in range(nrand):
         q = kfl.gen_logical(rng)
